@@ -110,7 +110,7 @@ def writesTo (t : Nat) : Op α → Bool
   | .new h | .newn h _ _ | .newp h _ | .drop h | .app h _ | .ins h _ _ | .appo h _ | .inso h _ _ | .insx h _ _ _
   | .rem h _ _ | .remone h _ _ | .reml h | .rsz h _ _ | .res h _ | .clr h | .sort h _ | .sortby h _ | .dup h
   | .remif h _ _ | .apnd h _ | .copy h _ | .copyp h _ | .appp h _ | .set h _ _ | .pop h | .popn h _ | .popget h
-  | .qget h => h == t
+  | .qget h | .appown h _ _ | .copyown h _ _ | .remx h _ _ => h == t
   | .cp h g | .asg h g => h == t || g == t
   | .slice t' _ _ _ | .clone t' _ | .concat t' _ _ | .rev t' _ | .filt t' _ _ _ => t' == t
   | .get _ _ | .idx _ _ _ | .last _ | .eq _ _ | .top _ _ | .iter _ => false
